@@ -67,3 +67,26 @@ REG.contract('C01', II, 'Interpreter.func_range',
              opaque_classes=['RangeHolder'],
              dropped=['decorators noKwargs / FeatureNew / typed_pos_args: the argument types (int, optional int, optional int) are checked before the call (precondition: the shape of args)'],
              floor=5, note='range(stop) / range(start, stop) / range(start, stop, step): an error iff start < 0, stop < start or step < 1 (an explicit step of 0 included); otherwise exactly the requested progression')
+
+# ---- += : always a NEW value (the holderified result of the PLUS operator of the old value), bound to the name; the old value
+# object is only asked for that result — nothing else is done to it (it may be shared with other names)
+PAS = Struct('PlusAssignmentNode', 'mesonbuild.mparser:PlusAssignmentNode', var_name=Struct('IdNode', 'mesonbuild.mparser:IdNode', value=Str), value=Obj)
+GV = "[e for e in __trace__ if e[0] == 'get_variable']"
+SV = "[e for e in __trace__ if e[0] == 'set_variable']"
+OPC = "[e for e in __trace__ if e[0] == 'operator_call']"
+OTHER = "[e for e in __trace__ if e[0] not in ('evaluate_statement', 'get_variable', 'set_variable', 'operator_call', '_holderify', 'setattr')]"
+REG.contract('C01', IB, 'InterpreterBase.evaluate_plusassign', params={'self': BaseS, 'node': PAS},
+             ensures=[f"len({EVS}) == 1 and {EVS}[0][1] is node.value",
+                      f"len({GV}) == 1 and {GV}[0][1] == node.var_name.value",
+                      # the old value is asked for old + addition, once, and for nothing else
+                      f"len({OPC}) == 1 and {OPC}[0][1] is {GV}[0][-1] and {OPC}[0][2] is MesonOperator.PLUS and {OPC}[0][3] is fn__unholder({EVS}[0][-1])",
+                      f"len({HOL}) == 1 and {HOL}[0][1] is {OPC}[0][-1]",
+                      # and the NAME is bound to the new (holderified) value
+                      f"len({SV}) == 1 and {SV}[0][1] == node.var_name.value and {SV}[0][2] is {HOL}[0][-1]",
+                      f"len({OTHER}) == 0",
+                      f"all(e[1] is {GV}[0][-1] and e[2] == 'current_node' for e in [e for e in __trace__ if e[0] == 'setattr'])"],
+             raises={'InvalidCodeOnVoid': 'True', 'MesonException': 'True'}, exact_raises=False,
+             method_effects={'evaluate_statement': {'returns': Opt(Obj), 'raises': ['MesonException']}, 'get_variable': {'returns': Obj, 'raises': ['MesonException']},
+                             'operator_call': {'returns': Obj, 'raises': ['MesonException']}, '_holderify': {'returns': Obj, 'raises': []}, 'set_variable': []},
+             opaque_fns={'_unholder': ([Obj], Obj)}, floor=7,
+             note='`name += value`: one evaluation of the right-hand side, one PLUS operator call on the current value of the name, the result made a new value object and bound to the name; the old value object is not modified (values are immutable: another name bound to it keeps seeing the old value)')
